@@ -9,6 +9,7 @@ operations (`FloatOps F`), every expression tree, every environment of literal b
 both build profiles.
 -/
 import CamVerif.Proofs.C05Eval
+import CamVerif.Proofs.C05Parse
 namespace CamVerif.C05
 open CamVerif CamVerif.Formula CamVerif.Formula.Proofs
 open CamVerif.Formula.Spec (toSRes toSVal toSEnv SVal SErr binStrict)
@@ -25,6 +26,135 @@ theorem ladder_is_standard : Formula.ladder = Spec.binaryRows := by decide
 /-- **functions_are_standard**: every function name of the standard is in the parser's
 function table and denotes the standard's operator (SGN was missing before the repair). -/
 theorem functions_are_standard : ∀ nk ∈ Spec.functions, funcOf nk.1 = some nk.2 := by decide
+
+/-! ## 2. Parsing inverts printing (precedence and associativity) -/
+
+/-- **parse_print**: for every expression tree (all 19 binary operators, prefix `-` `~`, the 16
+functions, `?:`, literals, variables other than the constants `PI`/`E`) the parser reads the
+minimal-parenthesis print — parentheses only where the standard's precedence/associativity
+table requires them — back as exactly that tree.  Token level (`parseToks` is
+`Parser::expr` on the lexer's token stream); by induction over the tree, no bound. -/
+theorem parse_print (e : Expr F) (h : Spec.LegalIdents e) :
+    parseToks (Spec.printMin e) = .ok e :=
+  parseToks_printMin e h
+
+example : parseToks (F := F)
+    [.ident "a", .sym .minus, .ident "b", .sym .minus, .ident "c", .sym .star, .sym .minus,
+     .int 2, .sym .doubleStar, .sym .minus, .int 3, .sym .doubleStar, .int 2] =
+    .ok (.binOp .sub (.binOp .sub (.ident "a") (.ident "b"))
+      (.binOp .mul (.ident "c") (.unOp .neg (.binOp .pow (.int 2)
+        (.unOp .neg (.binOp .pow (.int 3) (.int 2))))))) :=
+  parse_print (.binOp .sub (.binOp .sub (.ident "a") (.ident "b"))
+      (.binOp .mul (.ident "c") (.unOp .neg (.binOp .pow (.int 2)
+        (.unOp .neg (.binOp .pow (.int 3) (.int 2))))))) (by simp [Spec.LegalIdents])
+
+/-- The minimal print of `a op1 b op2 c` grouped by the standard's table has no parentheses. -/
+private theorem printMin_group3 (op1 op2 : BinOpKind) (a b c : String) :
+    Spec.printMin (Spec.group3 op1 op2 (.ident a) (.ident b) (.ident c) : Expr F) =
+      [.ident a, .sym (Spec.symOf op1), .ident b, .sym (Spec.symOf op2), .ident c] := by
+  cases op1 <;> cases op2 <;> rfl
+
+/-- **adjacent_pair** (precedence/associativity of the ladder): for every ordered pair of
+binary operators (19 x 19, `**` included) the input `a op1 b op2 c` is grouped as the
+standard's table says: the tighter operator first, on a tie to the left — except `**`, which
+groups to the right. -/
+theorem adjacent_pair (op1 op2 : BinOpKind) (a b c : String)
+    (ha : a ≠ "PI" ∧ a ≠ "E") (hb : b ≠ "PI" ∧ b ≠ "E") (hc : c ≠ "PI" ∧ c ≠ "E") :
+    parseToks ([.ident a, .sym (Spec.symOf op1), .ident b, .sym (Spec.symOf op2), .ident c] :
+      List (Tok F)) = .ok (Spec.group3 op1 op2 (.ident a) (.ident b) (.ident c)) := by
+  rw [← printMin_group3]
+  apply parse_print
+  unfold Spec.group3
+  split <;> simp [Spec.LegalIdents, ha, hb, hc]
+
+example : parseToks ([.ident "a", .sym .plus, .ident "b", .sym .star, .ident "c"] : List (Tok F)) =
+    .ok (.binOp .add (.ident "a") (.binOp .mul (.ident "b") (.ident "c"))) :=
+  adjacent_pair .add .mul "a" "b" "c" (by decide) (by decide) (by decide)
+
+/-- **unary_and_ternary_nesting**: unary operators bind tighter than every binary operator but
+looser than `**`; `?:` is right-associative and binds loosest. -/
+theorem unary_and_ternary_nesting (op : BinOpKind) (hop : op ≠ .pow) (a b c d e : String)
+    (ha : a ≠ "PI" ∧ a ≠ "E") (hb : b ≠ "PI" ∧ b ≠ "E") (hc : c ≠ "PI" ∧ c ≠ "E")
+    (hd : d ≠ "PI" ∧ d ≠ "E") (he : e ≠ "PI" ∧ e ≠ "E") :
+    -- `- a op b` is `(-a) op b`
+    parseToks ([.sym .minus, .ident a, .sym (Spec.symOf op), .ident b] : List (Tok F)) =
+      .ok (.binOp op (.unOp .neg (.ident a)) (.ident b)) ∧
+    -- `- a ** b` is `-(a ** b)`, `a ** - b ** c` is `a ** (-(b ** c))`
+    parseToks ([.sym .minus, .ident a, .sym .doubleStar, .ident b] : List (Tok F)) =
+      .ok (.unOp .neg (.binOp .pow (.ident a) (.ident b))) ∧
+    parseToks ([.ident a, .sym .doubleStar, .sym .minus, .ident b, .sym .doubleStar, .ident c] :
+      List (Tok F)) =
+      .ok (.binOp .pow (.ident a) (.unOp .neg (.binOp .pow (.ident b) (.ident c)))) ∧
+    -- `a ? b : c ? d : e` is `a ? b : (c ? d : e)`; `a op b ? c : d` is `(a op b) ? c : d`
+    parseToks ([.ident a, .sym .question, .ident b, .sym .colon, .ident c, .sym .question,
+      .ident d, .sym .colon, .ident e] : List (Tok F)) =
+      .ok (.ite (.ident a) (.ident b) (.ite (.ident c) (.ident d) (.ident e))) ∧
+    parseToks ([.ident a, .sym (Spec.symOf op), .ident b, .sym .question, .ident c, .sym .colon,
+      .ident d] : List (Tok F)) =
+      .ok (.ite (.binOp op (.ident a) (.ident b)) (.ident c) (.ident d)) := by
+  have p1 : Spec.printMin (.binOp op (.unOp .neg (.ident a)) (.ident b) : Expr F) =
+      [.sym .minus, .ident a, .sym (Spec.symOf op), .ident b] := by
+    cases op <;> first | (exact absurd rfl hop) | rfl
+  have p5 : Spec.printMin (.ite (.binOp op (.ident a) (.ident b)) (.ident c) (.ident d) : Expr F) =
+      [.ident a, .sym (Spec.symOf op), .ident b, .sym .question, .ident c, .sym .colon, .ident d] := by
+    cases op <;> first | (exact absurd rfl hop) | rfl
+  refine ⟨?_, ?_, ?_, ?_, ?_⟩
+  · rw [← p1]; apply parse_print; simp [Spec.LegalIdents, ha, hb]
+  · exact parse_print (.unOp .neg (.binOp .pow (.ident a) (.ident b))) (by simp [Spec.LegalIdents, ha, hb])
+  · exact parse_print (.binOp .pow (.ident a) (.unOp .neg (.binOp .pow (.ident b) (.ident c))))
+      (by simp [Spec.LegalIdents, ha, hb, hc])
+  · exact parse_print (.ite (.ident a) (.ident b) (.ite (.ident c) (.ident d) (.ident e)))
+      (by simp [Spec.LegalIdents, ha, hb, hc, hd, he])
+  · rw [← p5]; apply parse_print; simp [Spec.LegalIdents, ha, hb, hc, hd]
+
+/-! ### characters → tokens (not proved in general: tied by the differential) -/
+
+/-- Spelling of a token list with single blanks (numbers in decimal).  Float tokens have no
+canonical text and are outside this statement. -/
+def spell : List (Tok F) → List Char
+  | [] => []
+  | t :: ts =>
+    (match t with
+      | .sym s => (match s with
+        | .lparen => "(" | .rparen => ")" | .plus => "+" | .minus => "-" | .star => "*"
+        | .doubleStar => "**" | .slash => "/" | .percent => "%" | .and => "&" | .doubleAnd => "&&"
+        | .or => "|" | .doubleOr => "||" | .caret => "^" | .tilde => "~" | .eq => "=" | .ne => "<>"
+        | .colon => ":" | .question => "?" | .lt => "<" | .le => "<=" | .gt => ">" | .ge => ">="
+        | .shl => "<<" | .shr => ">>").toList
+      | .ident s => s.toList
+      | .int i => (toString i.toNat).toList
+      | _ => []) ++ ' ' :: spell ts
+
+/-- literals and identifiers that have a spelling the lexer accepts -/
+def Lexable : Expr F → Prop
+  | .binOp _ l r => Lexable l ∧ Lexable r
+  | .unOp _ x => Lexable x
+  | .ite c t e => Lexable c ∧ Lexable t ∧ Lexable e
+  | .int i => i.toNat < 2 ^ 63
+  | .float _ => False
+  | .ident s => ∃ c cs, s.toList = c :: cs ∧ isAlpha c = true ∧ cs.all isIdentCont = true
+
+/-- Full-strength statement at the character level (kept as a checked definition; proved here
+only below the lexer, `parse_print`; the lexer is tied to the code by the differential over
+whitespace / entity / literal-form variants). -/
+def C05_parse_print_string_statement : Prop :=
+  ∀ (e : Expr F), Spec.LegalIdents e → Lexable e → parseChars (spell (Spec.printMin e)) = .ok e
+
+/- Concrete strings through lexer + parser, evaluated by the kernel (entities, hex, dotted
+identifiers, whitespace; a malformed input panics, as in the code). -/
+example : @parseChars Unit unitFloatOps "(1 + 2*3 - 6) = 1 ? 0x10 : VAR.Max &lt;&lt; 2".toList =
+    .ok (.ite (.binOp .eq (.binOp .sub (.binOp .add (.int 1) (.binOp .mul (.int 2) (.int 3))) (.int 6))
+      (.int 1)) (.int 16) (.binOp .shl (.ident "VAR.Max") (.int 2))) := by
+  decide +kernel
+
+example : @parseChars Unit unitFloatOps "SGN(-X) &amp;&amp; 2 ** 3 ** 2 <> .5".toList =
+    .ok (.binOp .and (.unOp .sgn (.unOp .neg (.ident "X")))
+      (.binOp .ne (.binOp .pow (.int 2) (.binOp .pow (.int 3) (.int 2))) (.float ()))) := by
+  decide +kernel
+
+example : @parseChars Unit unitFloatOps "1 +".toList = .panic ∧
+    @parseChars Unit unitFloatOps "9223372036854775808".toList = .panic := by
+  decide +kernel
 
 /-! ## 3. Evaluation refines the reference evaluator -/
 
